@@ -18,6 +18,7 @@ import (
 
 	"verif/mc"
 	"verif/ref/dm"
+	"verif/ref/qr"
 )
 
 // dmValueText: the text of value-coverage kind k for the symbol size with index di.
@@ -151,4 +152,84 @@ func runDMValues() {
 	flush(classCount(used))
 }
 
-var _ = mc.Guard
+// qrValueText: with the ISO-8859-1 hint the byte segment is byte-aligned (see buildQRLatin1), so
+// a text that runs through the code points U+0000..U+00FF puts every value 0..255 into the data
+// codewords.
+func qrValueText(v, l int) string {
+	hdr := 3
+	if v >= 10 {
+		hdr = 4
+	}
+	n := qr.DataCodewords(v, qr.Level(l)) - hdr
+	rs := make([]rune, n)
+	for i := range rs {
+		rs[i] = rune((i + 251*(i/256)) % 256)
+	}
+	return string(rs)
+}
+
+func runQRValues() {
+	type job struct{ v, l int }
+	jobs := []job{{10, 0}, {13, 1}, {20, 1}, {27, 2}, {34, 0}, {40, 3}}
+	syms := make([]*symbol, len(jobs))
+	chk.Range("QR symbols whose data codewords run through every value 0..255 (byte-aligned ISO-8859-1 segment of the code points U+0000..U+00FF): versions 10-L, 13-M, 20-M, 27-Q, 34-L, 40-H, library-built and reference-confirmed; codewords damaged alone x {^01,^80,^FF, to 00, to FF} and t per block together (first, last, spread)", len(jobs),
+		func(i int) string { return fmt.Sprint(jobs[i]) },
+		func(l *mc.Local, i int) {
+			j := jobs[i]
+			s, p := buildQRLatin1(j.v, j.l, (j.v+j.l)%8, qrValueText(j.v, j.l), false, true)
+			l.Count("evaluations", 1)
+			if p != "" {
+				chk.Violation("C05/pristine-mismatch/qr/values", s.name()+": "+p, rcase{Symbol: s.name(), Kind: "qr", V: j.v, Level: j.l, Mask: (j.v + j.l) % 8, QRVal: true, Key: "C05/pristine-mismatch", Expect: "info"})
+				return
+			}
+			s.qrValues = true
+			s.ord = 200000 + i
+			syms[i] = s
+			seenVal := map[byte]bool{}
+			for p := range s.mods {
+				// every value once (the first position holding it), every seventh position, and the first 16
+				if seenVal[s.ref[p]] && p%7 != 0 && p >= 16 {
+					continue
+				}
+				seenVal[s.ref[p]] = true
+				for _, x := range []int{0x01, 0x80, 0xFF, int(s.ref[p]), int(s.ref[p]) ^ 0xFF} {
+					if x == 0 {
+						continue
+					}
+					f := &fault{CW: []int{p}, XOR: []int{x}}
+					try(l, s, f, "qr/values-single", "C05/qr/%svalues/single", "exact", int64(p)<<8|int64(x))
+				}
+			}
+			for fi, fam := range []string{"first", "last", "spread"} {
+				f := &fault{}
+				for b, ps := range s.blocks {
+					for jx, idx := range family(fam, len(ps), s.dataLen[b], s.t()) {
+						f.CW = append(f.CW, ps[idx])
+						f.XOR = append(f.XOR, xorFor(mixed, jx, idx, b))
+					}
+				}
+				try(l, s, f, "qr/values-t", "C05/qr/%svalues/t-errors/"+fam, "exact", int64(fi))
+			}
+		})
+	var used []*symbol
+	seen := [256]bool{}
+	for _, s := range syms {
+		if s == nil {
+			continue
+		}
+		used = append(used, s)
+		for p, v := range s.ref {
+			if w := s.where[p]; w[1] < s.dataLen[w[0]] {
+				seen[v] = true
+			}
+		}
+	}
+	n := 0
+	for _, b := range seen {
+		if b {
+			n++
+		}
+	}
+	chk.Subspace("QR value-coverage symbols", map[string]interface{}{"symbols_built": len(used), "distinct_data_codeword_values": n})
+	flush(classCount(used))
+}
